@@ -147,19 +147,64 @@ Theorem C07_all_default_in_list_refuted :
 Proof. exact all_default_in_list_refuted. Qed.
 Print Assumptions C07_all_default_in_list_refuted.
 
-Theorem C07_packed_blank_refuted :
-  row_dom r2_ty r2_v [[115%N]] = false
-  /\ unparse_row r2_ty r2_v [[115%N]] [] = Ok r2_cells
-  /\ parse_row {| rm_ty := r2_ty; rm_ctx := None |} r2_cells = Ok r2_back
+(* finding packed-model-blank-value-under-nonblank-default: DECIDED by the probed constant join_keeps_blank_last
+   (does join_from_lists keep an empty last element by a trailing separator?).  On the repaired tree the instance
+   is inside the proved domain (C07_row_roundtrip covers it), is written a;;| and comes back. *)
+Theorem C07_packed_blank_decided :
+  if join_keeps_blank_last
+  then row_dom r2_ty r2_v [[115%N]] = true
+       /\ unparse_row r2_ty r2_v [[115%N]] [] = Ok r2_cells_kept
+       /\ parse_row {| rm_ty := r2_ty; rm_ctx := None |} r2_cells_kept = Ok r2_v
+  else row_dom r2_ty r2_v [[115%N]] = false
+       /\ unparse_row r2_ty r2_v [[115%N]] [] = Ok r2_cells
+       /\ parse_row {| rm_ty := r2_ty; rm_ctx := None |} r2_cells = Ok r2_back
+       /\ r2_back <> r2_v.
+Proof. exact packed_blank_decided. Qed.
+Print Assumptions C07_packed_blank_decided.
+
+(* the reader is the same on either tree *)
+Theorem C07_packed_blank_reader :
+  parse_row {| rm_ty := r2_ty; rm_ctx := None |} r2_cells = Ok r2_back
+  /\ parse_row {| rm_ty := r2_ty; rm_ctx := None |} r2_cells_kept = Ok r2_v
   /\ r2_back <> r2_v.
-Proof. exact packed_blank_refuted. Qed.
-Print Assumptions C07_packed_blank_refuted.
+Proof. exact packed_blank_reader. Qed.
+Print Assumptions C07_packed_blank_reader.
 
 Theorem C07_packing_limit_refuted :
   row_dom r4_ty r4_v [[108%N]] = false
   /\ unparse_row r4_ty r4_v [[108%N]] [] = Err EJoin.
 Proof. exact packing_limit_refuted. Qed.
 Print Assumptions C07_packing_limit_refuted.
+
+(* 5. the file leg, one cell at a time: RowDataSheet.export(filename, "xlsx") + XLSXSheetReader (Io/XlsxCell.v, tied to
+      the code by the probe xlsx_export_text_cells and by the harness's cell stream, engine 107 fn 8).
+      Finding xlsx-cell-starting-with-equals-sign: the full statement is decided by the probe. *)
+From RPFT Require Import Io.XlsxCell Io.XlsxCellFacts.
+
+Theorem C07_xlsx_text_survives_decided :
+  if xlsx_export_text_cells
+  then forall s, xlsx_cell_roundtrip s = s
+  else ~ (forall s, xlsx_cell_roundtrip s = s).
+Proof. exact xlsx_text_survives_decided. Qed.
+Print Assumptions C07_xlsx_text_survives_decided.
+
+(* what comes back, on either tree: everything but a text "=…" of two or more characters *)
+Theorem C07_xlsx_cell_roundtrip_spec : forall s,
+  xlsx_cell_roundtrip s = if is_formula_text s && negb xlsx_export_text_cells then [] else s.
+Proof. exact xlsx_cell_roundtrip_spec. Qed.
+Print Assumptions C07_xlsx_cell_roundtrip_spec.
+
+Theorem C07_xlsx_formula_witness :
+  is_formula_text w_formula_text = true
+  /\ xlsx_cell_roundtrip w_formula_text = (if xlsx_export_text_cells then w_formula_text else [])
+  /\ xlsx_cell_roundtrip [c_equals] = [c_equals].
+Proof. exact xlsx_formula_witness. Qed.
+Print Assumptions C07_xlsx_formula_witness.
+
+Theorem C07_xlsx_row_survives_repaired :
+  xlsx_export_text_cells = true -> forall cells : list str, map xlsx_cell_roundtrip cells = cells.
+Proof. exact xlsx_row_survives_repaired. Qed.
+Print Assumptions C07_xlsx_row_survives_repaired.
 
 (* 5. sessions (Row/Session.v): a FAMILY of classes — some derived from an earlier one the way pydantic collects the
       fields of a subclass — and a SEQUENCE of operations on the long-lived parsers of these classes, run through
@@ -222,3 +267,39 @@ Example C07_session_nonvacuous_run :
   run_session ex_family ex_ops = [RValue (Ok ex_q1); RCells (Ok ex_f2_cells); RDone; RValue (Ok ex_f2)].
 Proof. exact ex_session_run. Qed.
 Print Assumptions C07_session_nonvacuous_run.
+
+(* 6. the file leg, which headers become columns: RowDataSheet._get_headers (Io/SheetHeaders.v, tied to the code by the
+      probe sheet_keeps_single_columns and by the harness's header stream, engine 107 fn 11; the ORDER of the columns is
+      not modelled).  Finding single-column-sheet-export-crashes: the full statement is decided by the probe. *)
+From RPFT Require Import Io.SheetHeaders Io.SheetHeadersFacts.
+
+Theorem C07_sheet_headers_complete_decided :
+  if sheet_keeps_single_columns
+  then forall rows r h, In r rows -> In h r -> In h (sheet_header_set rows)
+  else ~ (forall rows r h, In r rows -> In h r -> In h (sheet_header_set rows)).
+Proof. exact sheet_headers_complete_decided. Qed.
+Print Assumptions C07_sheet_headers_complete_decided.
+
+(* either tree: columns are headers some row writes, no column twice, and rows with two or more columns keep theirs *)
+Theorem C07_sheet_headers_sound : forall rows h, In h (sheet_header_set rows) -> exists r, In r rows /\ In h r.
+Proof. exact sheet_headers_sound. Qed.
+Print Assumptions C07_sheet_headers_sound.
+
+Theorem C07_sheet_headers_nodup : forall rows, NoDup (sheet_header_set rows).
+Proof. exact sheet_headers_nodup. Qed.
+Print Assumptions C07_sheet_headers_nodup.
+
+Theorem C07_sheet_headers_wide_rows : forall rows r h,
+  In r rows -> (2 <= length r)%nat -> In h r -> In h (sheet_header_set rows).
+Proof. exact sheet_headers_wide_rows. Qed.
+Print Assumptions C07_sheet_headers_wide_rows.
+
+(* the two shapes of the finding: no column at all (TypeError in convert_to_tablib) / the cell of a one-column row
+   next to a wider row is not in the sheet *)
+Theorem C07_sheet_headers_witness :
+  sheet_header_set [[w_e1]; [w_e1]] = (if sheet_keeps_single_columns then [w_e1] else [])
+  /\ sheet_header_set [[w_a; w_b]; [w_c]] = (if sheet_keeps_single_columns then [w_a; w_b; w_c] else [w_a; w_b])
+  /\ sheet_cell (sheet_header_set [[w_a; w_b]; [w_c]]) [(w_c, [118%N])] w_c
+     = (if sheet_keeps_single_columns then Some [118%N] else None).
+Proof. exact sheet_headers_witness. Qed.
+Print Assumptions C07_sheet_headers_witness.
